@@ -18,7 +18,7 @@ META = dict(
                 "NaN/inf exactly. Claims per configuration: len(history)=n, every entry and the overall p finite, not NaN, in [0,1]; "
                 "overall = min(history) (random order) or history[-1]; no exception.",
     bounds={"quick": {"n": "1, 2, 3 (kaplan_kolmogorov also 4)", "N": "n, n+1, n+3, 50, inf", "ut": ["plur", "super", "cmp10"]},
-            "thorough": {"n": [1, 2, 3, 4], "N": "n, n+1, n+3, 50, inf", "ut": list(nnm.UT)}},
+            "thorough": {"n": "1..5 (shrink_trunc, agrapa: 1..3)", "N": "n, n+1, n+3, 50, inf", "ut": list(nnm.UT)}},
     outside=["samples longer than the bound", "floating-point rounding, overflow and underflow (exact reals + IEEE specials)",
              "u,t outside the grid"],
     assumptions=["eta in (t,u); c,d,minsd > 0; f >= 0; lam in [0,1/u] for fixed_bet (free for agrapa); c_grapa_0 <= c_grapa_max in (0,1); "
@@ -30,10 +30,10 @@ META = dict(
 
 def cells(tier):
     out = []
-    ns = [1, 2, 3] if tier == "quick" else [1, 2, 3, 4]
+    ns = [1, 2, 3] if tier == "quick" else [1, 2, 3, 4, 5]
     for m in nnm.METHODS:
         for n in (ns + [4] if (tier == "quick" and m[0] == "kaplan_kolmogorov") else ns):      # (0*inf needs four draws; these cells are cheap)
-            if tier == "thorough" and n == 4 and m[2] in ("shrink_trunc", "agrapa"):
+            if tier == "thorough" and n >= 4 and m[2] in ("shrink_trunc", "agrapa"):
                 continue
             for N in nnm.n_grid(m, n):
                 for ut in nnm.ut_grid(m, tier):
